@@ -165,21 +165,56 @@ Definition HashOK (m : bytes) (ok : N -> Prop) (h t : N) : Prop :=
     ((t = hash_root_pos /\ ls = []) \/
      (t <> hash_root_pos /\ exists seg e', NameIn m ok seg t ls e')).
 
+Lemma label_at_here m p l :
+  valid_label l -> bytes_at m p (mlen l :: l) -> label_at m (mlen m) p = Some l.
+Proof.
+  intros [Hl Hw] Hb. unfold label_at.
+  pose proof Hb as Hb0. apply bytes_at_cons in Hb0 as [Hg Hb1]. rewrite Hg.
+  pose proof (bytes_at_end m p (mlen l :: l) ltac:(discriminate) Hb) as He. rewrite mlen_cons in He.
+  destruct (N.leb_spec (mlen l) 63); [|unfold mlen in *; lia].
+  destruct (N.leb_spec (p + 1 + mlen l) (PName.mlen m)); [|lia]. cbn [andb].
+  rewrite (slice_bytes_at m (p + 1) l Hb1). reflexivity.
+Qed.
+
+(* at most one hash entry per (label up to ASCII case, tail): what makes
+   HashTable::find's answer independent of the probe order *)
+Definition HU (m : bytes) (es : list (N * N)) : Prop :=
+  forall h1 h2 t la lb, In (h1, t) es -> In (h2, t) es ->
+    label_at m (mlen m) h1 = Some la -> label_at m (mlen m) h2 = Some lb -> lowers la = lowers lb -> h1 = h2.
+
 Definition CInv (ok : N -> Prop) (w : ws) : Prop :=
   Forall (StaticOK (w_buf w) ok) (w_static w) /\
   Forall (fun kv => TreeOK (w_buf w) ok (fst kv) (snd kv)) (w_tree w) /\
-  Forall (fun e => HashOK (w_buf w) ok (fst e) (snd e)) (w_hash w).
+  Forall (fun e => HashOK (w_buf w) ok (fst e) (snd e)) (w_hash w) /\
+  HU (w_buf w) (w_hash w).
+
+(* uniqueness carries over to a buffer in which the entries read the same labels *)
+Lemma HU_transfer m m' (ok ok' : N -> Prop) es es' :
+  incl es' es -> Forall (fun e => HashOK m ok (fst e) (snd e)) es ->
+  (forall p l ls e, LabelAt m ok p l ls e -> LabelAt m' ok' p l ls e) ->
+  HU m es -> HU m' es'.
+Proof.
+  intros I F HL U h1 h2 t la lb I1 I2 L1 L2 E.
+  rewrite Forall_forall in F.
+  assert (X : forall h lx, In (h, t) es' -> label_at m' (mlen m') h = Some lx -> label_at m (mlen m) h = Some lx).
+  { intros h lx Hin Hl. destruct (F (h, t) (I _ Hin)) as (l & ls & e & HLa & _). cbn [fst] in HLa.
+    pose proof (HL _ _ _ _ HLa) as HLb.
+    destruct HLa as (V & _ & B & _). destruct HLb as (_ & _ & B' & _).
+    rewrite (label_at_here _ _ _ V B') in Hl. rewrite (label_at_here _ _ _ V B). exact Hl. }
+  apply (U h1 h2 t la lb); auto.
+Qed.
 
 Lemma CInv_map (P : bytes -> (N -> Prop) -> Prop) ok ok' w w' :
   (forall p l ls e, LabelAt (w_buf w) ok p l ls e -> LabelAt (w_buf w') ok' p l ls e) ->
   (forall seg p ls e, NameIn (w_buf w) ok seg p ls e -> NameIn (w_buf w') ok' seg p ls e) ->
   same_tables w w' -> CInv ok w -> CInv ok' w'.
 Proof.
-  intros HL HN (a1 & a2 & a3) (A & B & C). unfold CInv. rewrite a1, a2, a3. split; [|split].
+  intros HL HN (a1 & a2 & a3) (A & B & C & U). unfold CInv. rewrite a1, a2, a3. split; [|split; [|split]].
   - eapply Forall_weaken; [|exact A]. intros v (l & ls & e & H). exists l, ls, e. auto.
   - eapply Forall_weaken; [|exact B]. intros [k v] (l & ls & e & K & H). exists l, ls, e. auto.
   - eapply Forall_weaken; [|exact C]. intros [h t] (l & ls & e & H & T). exists l, ls, e. split; auto.
     destruct T as [T|(T1 & seg & e' & T2)]; [left; exact T|right]. split; auto. exists seg, e'. auto.
+  - eapply HU_transfer; [apply incl_refl|exact C|exact HL|exact U].
 Qed.
 
 Lemma CInv_app ok w w' x : w_buf w' = w_buf w ++ x -> same_tables w w' -> CInv ok w -> CInv ok w'.
@@ -386,16 +421,17 @@ Qed.
 
 Lemma tree_acn_ok c : AcnSpec c (tree_acn c).
 Proof.
-  intros ok n w w' Hv TB SI (CS & CT & CH) Ho H.
+  intros ok n w w' Hv TB SI (CS & CT & CH & CU) Ho H.
   destruct (tree_acn_name c ok (mlen (w_buf w)) n w w' Hv TB ltac:(lia) Ho) as (N1 & (sfx & X) & S1 & H1 & E1); auto.
   - intros k v Hin _. rewrite Forall_forall in CT. apply (CT (k, v) Hin).
   - intros k v Hin Hge. destruct TB as (_ & TT & _). rewrite Forall_forall in TT. specialize (TT _ Hin). cbn [snd] in TT. lia.
   - split.
-    + unfold CInv. rewrite S1, H1, X. split; [|split].
+    + unfold CInv. rewrite S1, H1, X. split; [|split; [|split]].
       * eapply Forall_weaken; [|exact CS]. intros v Hs. apply StaticOK_app; exact Hs.
       * rewrite Forall_forall. intros [k v] Hin. cbn [fst snd]. rewrite <- X.
         destruct (E1 _ _ Hin) as [Hin0|Hok]; [|exact Hok].
         rewrite X. apply TreeOK_app. rewrite Forall_forall in CT. apply (CT (k, v) Hin0).
       * eapply Forall_weaken; [|exact CH]. intros [h t] Hs. apply HashOK_app; exact Hs.
+      * apply (HU_transfer (w_buf w) _ ok ok (w_hash w)); [apply incl_refl|exact CH|intros; apply LabelAt_app; auto|exact CU].
     + exists n. split; [reflexivity|]. apply N1. lia.
 Qed.
